@@ -236,7 +236,10 @@ func (e *lockEngine) analyze(f *ssa.Function) bool {
 		for _, i := range b.Instrs {
 			e.step(st, i, f, true)
 		}
-		for _, s := range b.Succs {
+		for si, s := range b.Succs {
+			if deadEdge(b, si) {
+				continue
+			}
 			old := lf.in[s]
 			if old == nil {
 				lf.in[s] = &lockState{must: st.must.clone(), may: st.may.clone()}
